@@ -99,6 +99,25 @@ Definition canon_in (cu : string) (x : Q) (u : string) : Q := canon x (if unitle
 Definition slack7 (x : Q) : Q := ((1 # 10000000) * (1 + Qabs x))%Q.
 Definition close7 (x v : Q) : bool := Qle_bool (Qabs (v - x)) (slack7 x).
 
+(* reference fold for min / max *)
+Definition rel (ismax : bool) (f v : Q * string) : Z :=     (* 0 incompatible, 1 keep f, 2 take v, 3 tie *)
+  let '(x, u) := f in let '(y, w) := v in
+  if negb (unitless u) && negb (unitless w) && negb (same_group u w) then 0 else
+  let cx := if unitless u || unitless w then x else canon x u in
+  let cy := if unitless u || unitless w then y else canon y w in
+  if Qle_bool (Qabs (cx - cy)) ((1 # 1000000000) * Qmaxb (Qabs cx) (Qabs cy)) then 3
+  else if (if ismax then Qle_bool cy cx else Qle_bool cx cy) then 1 else 2.
+Fixpoint fold_ref (ismax : bool) (founds rest : list (Q * string)) : list (Q * string) * bool :=
+  match rest with
+  | [] => (founds, false)
+  | v :: r =>
+      let err := existsb (fun f => rel ismax f v =? 0) founds in
+      let keep := filter (fun f => let z := rel ismax f v in (z =? 1) || (z =? 3)) founds in
+      let takev := existsb (fun f => let z := rel ismax f v in (z =? 2) || (z =? 3)) founds in
+      let '(res, e2) := fold_ref ismax (keep ++ (if takev then [v] else []))%list r in
+      (res, err || e2)
+  end.
+
 Definition value_ok (c : case) : bool :=
   match all_some (map (fun a => q_of_bits (fst a)) (c_args c)) with
   | None => true                               (* non-finite arguments: outside the reference *)
@@ -131,26 +150,23 @@ Definition value_ok (c : case) : bool :=
         | _ => negb (same || unitless w)       (* only a compound unit may fail to print *)
         end
     | 7, _, _, r | 8, _, _, r =>
-        if forallb (fun u => negb (unitless u)) us && negb (args_compatible us) then
-          match r with INum _ _ => false | _ => true end          (* incompatible units: never a number *)
-        else if args_compatible us then
-          match r with
-          | INum t ru =>
-              match printed t with
-              | Some v =>
-                  let cv := canon_in cu v ru in
-                  (* one of the arguments ... *)
-                  existsb (fun xu => String.eqb (snd xu) ru && printed_close (fst xu) v) (combine xs us)
-                  (* ... and an extreme one *)
-                  && forallb (fun xu => let cx := canon_in cu (fst xu) (snd xu) in
-                                        if c_fn c =? 7 then Qle_bool cx (cv + slack7 cx)
-                                        else Qle_bool cv (cx + slack7 cx))
-                             (combine xs us)
-              | None => false
-              end
-          | _ => false
-          end
-        else true                       (* unitless mixed with several groups: only the running extreme is compared *)
+        (* the Sass definition: walk the arguments keeping the running extreme under the reference comparison
+           (two unit-carrying numbers: canonical quantities, incompatible groups are an error; a unitless number
+           compares by its plain value); on a tie either argument may be kept *)
+        match combine xs us with
+        | [] => match r with IErr => true | _ => false end
+        | f :: rest =>
+            let '(res, err) := fold_ref (c_fn c =? 7) [f] rest in
+            match r with
+            | INum t ru =>
+                match printed t with
+                | Some v => existsb (fun xu => String.eqb (snd xu) ru && printed_close (fst xu) v) res
+                | None => false
+                end
+            | IErr | IKept => err
+            | _ => false
+            end
+        end
     | 9, [mn; x; mx], [umn; ux; umx], r =>
         let all_unitless := unitless umn && unitless ux && unitless umx in
         let none_unitless := negb (unitless umn) && negb (unitless ux) && negb (unitless umx) in
